@@ -1,7 +1,7 @@
 #!/bin/bash
 # merge_from.sh <workspace letter> <regex on path, e.g. "C02|c02"> [--apply] : list (and with --apply copy) builder-owned files
 # whose path matches the regex from /tmp/b_X/verif into /verif
-X="$1"; RX="$2"; SRC=/tmp/b_$X/verif; shift
+X="$1"; RX="$2"; SRC=/tmp/b_$X/verif; [ -d /tmp/b_$X/snap ] && SRC=/tmp/b_$X/snap; shift
 PROTECT='^(harness/common.py|harness/check_C18.py|harness/c18_programs.py|harness/gen_tables.py|harness/py2lean.py|harness/make_manifest.py|harness/regen_all.py|harness/cxx_build.py|harness/mk_workspace.sh|harness/merge_from.sh|harness/run_baseline.py|lean/Driver.lean|lean/TdVerif.lean|lean/TdVerif/Sexp.lean|lean/lakefile.toml|lean/lake-manifest.json|lean/TdVerif/Props/C18.lean|lean/TdVerif/Drive/C18.lean|lean/TdVerif/Gen/PyFuns.lean|MANIFEST.json|known_findings.json|DESIGN.md|BUILDER_GUIDE.md|properties.jsonl|check|setup.sh|.gitignore)$'
 if [ "$X" = "K" ]; then  # builder K owns the C18 files and the translator
   PROTECT=$(echo "$PROTECT" | sed 's#harness/check_C18.py|harness/c18_programs.py|harness/gen_tables.py|harness/py2lean.py|##; s#lean/TdVerif/Props/C18.lean|lean/TdVerif/Drive/C18.lean|lean/TdVerif/Gen/PyFuns.lean|##')
